@@ -221,7 +221,15 @@ func (b *assignmentBuilder) structFieldAndStructGettersAndFields(
 	}
 
 	if opts.Getter && opts.Rule == gmodel.MatchRuleName {
-		bmodel.IterateStructMethods(rhsStruct, handler)
+		// A getter with a pointer receiver can only be called on a pointer or on an addressable
+		// value - not on a struct that is itself the result of a getter.
+		callable := util.IsPtr(rhsStruct.ExprType()) || isAddressable(rhsStruct)
+		bmodel.IterateStructMethods(rhsStruct, func(rhs bmodel.Node) (done bool) {
+			if method, ok := rhs.(bmodel.StructMethodNode); ok && !callable && method.HasPointerReceiver() {
+				return false
+			}
+			return handler(rhs)
+		})
 		if a != nil || err != nil {
 			return a, err
 		}
